@@ -39,6 +39,10 @@ static std::vector<Event> reqEvents()
     // abandoned in the middle of the data of a chunk (first read ends inside the chunk data)
     add("err-chunk-bad-terminator", "POST /e HTTP/1.1\r\nTransfer-Encoding: chunked\r\n\r\n5\r\nabcdeXX\r\n", 54, true);
     add("err-oversize-mid-chunk", "POST /o HTTP/1.1\r\nTransfer-Encoding: chunked\r\n\r\nc8\r\n" + std::string(150, 'c'), 52 + 40, true);
+    // abandoned inside the header block, after complete header lines: a header whose typed reader refuses it, and a
+    // header block that outgrows the size limit in a later read
+    add("err-bad-typed-header-after-headers", "GET /e HTTP/1.1\r\nHost: h\r\nX-A: 1\r\nCookie: broken\r\n\r\n", 36, true);
+    add("err-oversize-inside-headers", "GET /o HTTP/1.1\r\nHost: h\r\nX-B: 2\r\nX-Pad: " + std::string(140, 'p'), 36, true);
     add("err-method", "BREW /e HTTP/1.1\r\n\r\n", 3, true);
     add("err-version", "GET /e HTTQ/1.1\r\n\r\n", 10, true);
     // 41 header bytes + 70 body bytes arrive (within the 128 limit, body partly read), the next 60 trip the limit
